@@ -102,6 +102,13 @@ def gen_teams(rng, stratum, beta, n=None, maxsize=8):
             c = math.sqrt(2 * sz * sig * sig + 2 * beta * beta)
             z = rng.uniform(4, 9) * rng.choice([1, 1, -1])
             teams.append([((base + z * c * (i % 3)) / sz, sig) for _ in range(sz)])
+    elif stratum == "lopsided":
+        # one team far stronger than the rest, inside the supported range: exp(theta/c) spans many decades
+        sz = rng.randint(2, 8)
+        for i in range(n):
+            top = (i == 0)
+            teams.append([((rng.uniform(14, 20) if top else rng.uniform(-20, -8)) * beta, rng.uniform(0.05, 1.0) * beta) for _ in range(sz)])
+        rng.shuffle(teams)
     elif stratum == "lowedge":
         # large equal-size teams of settled players at the low edge of the range: exp(theta/c) is tiny
         sz = rng.randint(4, 8)
@@ -124,7 +131,7 @@ def gen_teams(rng, stratum, beta, n=None, maxsize=8):
     return teams
 
 
-STRATA = ["typical", "typical", "wide", "corners", "mismatch", "identical", "equalsize", "floor", "lowedge"]
+STRATA = ["typical", "typical", "wide", "corners", "mismatch", "identical", "equalsize", "floor", "lowedge", "lopsided"]
 
 
 def gen_config(rng, default_bias=0.4):
